@@ -25,7 +25,7 @@ for l in log:
         print(sha[:7], ','.join(props.get(sha[:7], [])) or '-', rest)
 PY
 run_one() {
-  sha=$1; pids=$2; shift 2; rest="$*"; S=$S_DIR; wt=$S/wt_$sha
+  sha=$1; pids=$2; rest=$(git -C /repo log -1 --format=%s $sha); S=$S_DIR; wt=$S/wt_$sha
   [ "$pids" = "-" ] && { echo "$sha ?? no property recorded: $rest"; return; }
   git -C /repo worktree add -q --detach $wt HEAD 2>/dev/null || { echo "$sha WORKTREE-FAILED"; return; }
   if ! (git -C /repo show $sha | git -C $wt apply -R 2>/dev/null); then
@@ -40,7 +40,7 @@ run_one() {
   git -C /repo worktree remove --force $wt; rm -rf $S/out_$sha
 }
 export -f run_one; export S_DIR=$S
-cat $S/list.txt | tr "'" ' ' | xargs -d '\n' -P $J -I{} bash -c 'run_one {}' > $S/table.txt
+cut -d' ' -f1,2 $S/list.txt | xargs -P $J -L 1 bash -c 'run_one "$0" "$1"' > $S/table.txt
 git -C /repo worktree prune
 { echo "# revert rehearsal against /repo $(git -C /repo rev-parse --short HEAD), $(date -u +%FT%TZ)"; sort -k1,1 $S/table.txt; } > /verif/seeded/revert_rehearsal.txt
 rm -rf $S
